@@ -335,7 +335,7 @@ func summariseLockers(p *Prog, pkg string) map[string]string {
 		if fd.Body == nil || fd.Recv == nil || len(fd.Recv.List[0].Names) == 0 {
 			continue
 		}
-		recvObj := info.Defs[fd.Recv.List[0].Names[0]]
+		recvObj := info.Defs[recvIdentOf(fd)]
 		if recvObj == nil {
 			continue
 		}
